@@ -131,3 +131,26 @@ def check_C18(run, replay):
         cases, rows = enumerate_pipeline(run, "MC_Trunc", "trunc", env={"MAXDEN": maxden}, timeout=3000)
         run.exhaustive = True
     absorb(run, rows, cases, mismatch_sig("truncate"))
+
+
+# ------------------------------------------------------------------------------------------ C19
+LEVELS["C19"] = "model_checking"
+
+
+def check_C19(run, replay):
+    run.rule = ("TLC enumerates pairs of reduced grid profiles (denominators <= MAXDEN) on a game where player one has a "
+                "2-action and a 3-action infoset and player two has none or one 2-action infoset x exponents "
+                "{1/2,1,3/2,2,3,10,0,-1}; emits which players' strategies coincide and whether the call must panic, and "
+                "checks the demanded facts on a reference distance; each pair is replayed into distance() both ways round "
+                "(and against itself); non-trivial = positive p and the profiles differ; distinct by canonical JSON")
+    run.assumptions = ["symmetry is judged bitwise or within 1e-15"]
+    if replay:
+        cases, rows = replay_pipeline(run, "dist", replay_case(replay)["case"])
+    else:
+        maxden = 2 if run.tier == "quick" else 3
+        cases, rows = enumerate_pipeline(run, "MC_Dist", "dist", env={"MAXDEN": maxden}, timeout=3000)
+        run.exhaustive = True
+    absorb(run, [r for r in rows if r["id"] in cases], cases, mismatch_sig("distance"))
+    for r in rows:
+        if r["id"] not in cases and r["status"] == "violation":
+            run.violation(mismatch_sig("distance")(r, None), {"case": "profiles of two different games", "result": r})
